@@ -375,6 +375,76 @@ Proof. reflexivity. Qed.
 
 End Newton.
 
+(** ** The same wrapper with the rounding of the stored iterate made explicit and the sequence of evaluated points recorded
+       (this is the version that is run against the implementation; with [rnd] = identity it is [newton]). *)
+Section NewtonR.
+Variable St : Type.
+Variable f : Q -> option (Q * Q * St).
+Variable atol : Q.
+Variable rnd : Q -> Q.
+
+Fixpoint newton_r (fuel : nat) (x0 : Q) (tr : list Q) : option St * list Q :=
+  match fuel with
+  | O => (None, tr)
+  | S k =>
+    match f x0 with
+    | None => (None, x0 :: tr)
+    | Some (fx, dfx, st) =>
+      let x := rnd (x0 - fx / dfx) in
+      if Qle_bool (Qabs (x - x0)) (atol + rtol * Qabs x0) then (Some st, x0 :: tr) else newton_r k x (x0 :: tr)
+    end
+  end.
+
+Definition step_accepted (x : Q) (st : St) : Prop :=
+  exists fx dfx, f x = Some (fx, dfx, st) /\ Qabs (rnd (x - fx / dfx) - x) <= atol + rtol * Qabs x.
+
+(** Ok st ==> st is the state built at an evaluated point whose (rounded) Newton step passed the tolerance test *)
+Theorem newton_r_post fuel x0 tr st : fst (newton_r fuel x0 tr) = Some st -> exists x, step_accepted x st.
+Proof.
+  revert x0 tr. induction fuel as [|k IH]; intros x0 tr H; cbn [newton_r] in H; [discriminate|].
+  destruct (f x0) as [[[fx dfx] s]|] eqn:E; [|discriminate]. cbv zeta in H.
+  destruct (Qle_bool (Qabs (rnd (x0 - fx / dfx) - x0)) (atol + rtol * Qabs x0)) eqn:Ec.
+  - simpl in H. inversion H; subst. exists x0, fx, dfx. split; [assumption|]. apply Qle_bool_iff. assumption.
+  - eapply IH. eassumption.
+Qed.
+
+(** ... hence, when no evaluated point has an accepted step — in particular when the iteration limit is exhausted —
+    the result is an error, never the state of the last iterate *)
+Theorem newton_r_never_ok_without_accepted_step fuel x0 tr :
+  (forall x st, ~ step_accepted x st) -> fst (newton_r fuel x0 tr) = None.
+Proof.
+  intro H. destruct (fst (newton_r fuel x0 tr)) as [st|] eqn:E; [|reflexivity].
+  apply newton_r_post in E. destruct E as [x Hx]. exfalso. eapply H. eassumption.
+Qed.
+
+(** at most [fuel] points are evaluated, and a run that evaluated [fuel] points without accepting ends in an error *)
+Theorem newton_r_trace_length fuel x0 tr : (length (snd (newton_r fuel x0 tr)) <= fuel + length tr)%nat.
+Proof.
+  revert x0 tr. induction fuel as [|k IH]; intros x0 tr; cbn [newton_r]; [simpl; lia|].
+  destruct (f x0) as [[[fx dfx] s]|]; [|simpl; lia]. cbv zeta.
+  destruct (Qle_bool _ _); [simpl; lia|]. specialize (IH (rnd (x0 - fx / dfx)) (x0 :: tr)). simpl in IH. lia.
+Qed.
+End NewtonR.
+
+Lemma newton_r_id St f atol fuel : forall x0 tr, fst (newton_r St f atol (fun q => q) fuel x0 tr) = newton St f atol fuel x0.
+Proof.
+  induction fuel as [|k IH]; intros x0 tr; cbn [newton_r newton]; [reflexivity|].
+  destruct (f x0) as [[[fx dfx] s]|]; [|reflexivity]. cbv zeta.
+  destruct (Qle_bool _ _); [reflexivity|]. apply IH.
+Qed.
+
+(** caloric oracle of the harness mock (ideal gas with a step of height 2A in the internal energy at Tstar):
+    u/R = (k-1) T + s A (T/Tstar)^2,  c_v/R = (k-1) + 2 s A T/Tstar^2,  s = sign(T - Tstar);  residual = u/R - target *)
+Definition caloric_step_oracle (k A ts ut : Q) (T : Q) : option (Q * Q * Q) :=
+  let s := if Qltb T ts then -1 else 1 in
+  Some ((k - 1) * T + s * A * T * T / (ts * ts) - ut, (k - 1) + s * 2 * A * T / (ts * ts), T).
+
+(** witness that exhaustion is reachable: the step oracle makes Newton alternate around Tstar for all 50 iterations -> error *)
+Example newton_r_exhausts :
+  fst (newton_r Q (caloric_step_oracle (9 # 2) 70 300 ((7 # 2) * 300)) (1 # 100000000) (fun q => q) 6 290 []) = None
+  /\ length (snd (newton_r Q (caloric_step_oracle (9 # 2) 70 300 ((7 # 2) * 300)) (1 # 100000000) (fun q => q) 6 290 [])) = 6%nat.
+Proof. split; vm_compute; reflexivity. Qed.
+
 (** non-vacuity: Newton on x^2 - 2 from 3/2 converges within 50 steps with atol 1e-8 *)
 Example newton_nonvacuous :
   exists st, newton Q (fun x => Some (x * x - 2, 2 * x, Qred x)) (1 # 100000000) 50 (3 # 2) = Some st.
@@ -399,3 +469,9 @@ Definition enc_res (r : di_result) : Z * (Z * Z) :=
 Definition run_di (T a b amp rs maxd ptarget rho0 : Q) :=
   let '(r, tr) := density_iteration (mock_oracle T a b amp rs) maxd ptarget rnd140 true rho0 in
   (enc_res r, map (fun e => (fst e, enc_q (snd e))) (rev tr)).
+
+(** the Newton wrapper on the caloric step oracle: iterate rounded to a 2^-60 grid (f64 has 2^-44 at 300 K), 50 steps, atol 1e-8;
+    prints (0 = Ok / 13 = NotConverged, returned T, evaluated temperatures in order) *)
+Definition run_newton (k A ts ut t0 : Q) :=
+  let '(r, tr) := newton_r Q (caloric_step_oracle k A ts ut) (1 # 100000000) (rnd_grid 60) 50 t0 [] in
+  (match r with Some T => (0%Z, enc_q T) | None => (13%Z, (0%Z, 0%Z)) end, map enc_q (rev tr)).
